@@ -51,8 +51,10 @@ TickBegin ==
   /\ UNCHANGED <<on, iv, cnt, alive>>
 
 \* o's heart_beat function is entered
+\* (also after an error in the same tick: the driver goes on with the round - since fix 'heart beat error isolation' -;
+\*  the property is silent about ticks in which an error occurred, so a round cut short there is accepted as well)
 Beat(o) ==
-  /\ inTick /\ ~errTick
+  /\ inTick
   /\ o \in alive /\ on[o]
   /\ o \notin called                    \* at most once per tick
   /\ pre[o] > 0                         \* was enabled when the tick began
@@ -62,7 +64,7 @@ Beat(o) ==
   /\ cnt' = [cnt EXCEPT ![o] = iv[o]]
   /\ UNCHANGED <<on, iv, alive, inTick, pre, touched, errTick>>
 
-\* an uncaught error inside o's heart_beat: o's heart beat is switched off, the tick is cut short
+\* an uncaught error inside o's heart_beat: o's heart beat is switched off; the rest of the tick is not judged strictly
 BeatError(o) ==
   /\ inTick /\ o \in called
   /\ on' = [on EXCEPT ![o] = FALSE]
